@@ -1,8 +1,15 @@
 (* Api.v — stable names for the extracted entry points. *)
-From SJ Require Import lib.Base model.Json model.Ast model.ExecLib model.Leaf model.Exec.
+From SJ Require Import lib.Base model.Json model.Ast model.ExecLib model.Leaf model.Exec spec.Sem spec.Proj.
 Definition api_query := Query.
 Definition api_first := First.
 Definition api_exists := Exists.
 Definition api_match := Match.
 Definition api_eom := ExistsOrMatch.
 Definition api_polls := polls_of.
+Definition api_spec_query := spec_query.
+Definition api_spec_first := spec_first.
+Definition api_spec_exists := spec_exists.
+Definition api_spec_match := spec_match.
+Definition api_spec_eom := spec_eom.
+Definition api_sem_of := sem_of.
+Definition api_accessor_chain := accessor_chain.
